@@ -509,6 +509,36 @@ def run(prop, tier, seed):
             project(b, by_sc, lines, index)
             nsc += len(b.scenarios)
             nreq += sum(1 for e in events if e["ev"] == "Respond")
+        # the SHIPPED PROGRAM: some of the same scenarios are sent to the real dirk binary over TLS (restart = SIGKILL and a new
+        # process on the same storage); the recorded releases join the same trace
+        binary = None
+        if prop in ("C01", "C02", "C09"):
+            ok_kinds = {"att", "atts", "prop", "restart"}
+            cand = [(b, s_) for b in builders for s_ in b.scenarios if not s_.get("prior") and all(o["kind"] in ok_kinds for o in s_["ops"])]
+            withr = [c_ for c_ in cand if any(o["kind"] == "restart" for o in c_[1]["ops"])]
+            plain = [c_ for c_ in cand if c_ not in withr]
+            cand = (withr[:4] + plain[:3] + plain[-1:]) if tier == "quick" else (withr[:20] + plain[:20])
+            bscs, bmeta = [], {}
+            for b, s_ in cand:
+                c_ = dict(s_, id=s_["id"] + "-bin")
+                bscs.append(c_)
+                bmeta[c_["id"]] = (b.meta[s_["id"]], b.expect[s_["id"]]["floors"], c_)
+            if bscs:
+                bevents, brc, berr = run_driver_parallel_bin(bscs, wd, build_dirk())
+                if brc != 0:
+                    raise Inconclusive("driver against the dirk binary exited %s: %s" % (brc, berr[-400:]))
+                bby = split_scenarios(bevents)
+                for sid_, (m_, fl_, c_) in bmeta.items():
+                    if sid_ not in bby:
+                        raise Inconclusive("the dirk binary run of %s produced no events" % sid_)
+                    start = len(lines) + 1
+                    project_one(sid_, m_, fl_, bby[sid_], lines)
+                    index.append((start, len(lines), sid_))
+                    nreq += sum(1 for e in bby[sid_] if e["ev"] == "Respond")
+                nsc += len(bscs)
+                binary = dict(scenarios=len(bscs), requests=sum(1 for e in bevents if e["ev"] == "Respond"), releases=sum(1 for e in bevents if e["ev"] == "Release"),
+                              restarts=sum(1 for e in bevents if e["ev"] == "Restart"))
+                remote_lookup = {sid_: v for sid_, v in bmeta.items()}
         race = None
         race_scs = []
         if prop in ("C01", "C02"):
@@ -548,6 +578,8 @@ def run(prop, tier, seed):
             for s in race_scs:
                 if s["id"] == sid:
                     sc, smeta, sfloors = s, {}, []
+            if binary and sid in remote_lookup:
+                smeta, sfloors, sc = remote_lookup[sid]
             seg = []
             for a, bb, s in index:
                 if s == sid:
@@ -567,7 +599,7 @@ def run(prop, tier, seed):
             if sp["drift"]:
                 print("DRIFT: util.Scatter extents differ from Scatter.tla in %d cell(s), e.g. %s" % (len(sp["drift"]), sp["drift"][0]))
         rc = verdict.finish()
-        cov = dict(states=info["states"], transitions=info["transitions"], traces_validated_against_impl=nsc, batch_equals_sequential=batch_cov, concurrent_arrival=race,
+        cov = dict(states=info["states"], transitions=info["transitions"], traces_validated_against_impl=nsc, batch_equals_sequential=batch_cov, concurrent_arrival=race, against_the_dirk_binary=binary,
                    samples=[dict(kind="recorded-trace-prefix", lines=sample_trace),
                             dict(kind="attack-histories", items=attacks[:4])],
                    model_runs=info["model_runs"], mutants=info["mutants"], mutants_expected=len(p["mutants"]),
@@ -593,7 +625,8 @@ def replay(prop, path):
         return batchfamily.replay(prop, path)
     wd = workdir(prop + "-replay")
     try:
-        events, rc, err = run_driver([obj["scenario"]], wd, tag="replay")
+        remote = obj["scenario"]["id"].endswith("-bin")
+        events, rc, err = run_driver([obj["scenario"]], wd, tag="replay", dirk=build_dirk() if remote else None)
         if rc != 0:
             raise Inconclusive("driver exited %s: %s" % (rc, err[-300:]))
         lines = []
